@@ -115,7 +115,11 @@ function elementKinds() {
   }
   // a <slot> element with each family it accepts
   for (const [fname, f] of [['id', (val) => A.id(val)], ['data-', (val) => A.dataHyphen('k-l', val)], ['data:', (val) => A.dataColon('kL', val)], ['mark', (val) => A.mark('m', val)]]) {
-    for (const [fn, fv] of [['static', 's'], ['binding', X], ['mixed', ['a', X]]]) out.push([`slot-x:${fname}:${fn}`, () => slot(fn === 'static' ? undefined : 'n', [['v', Y]], { attrs: [f(fv)] })])
+    for (const [fn, fv] of [['static', 's'], ['binding', X], ['mixed', ['a', X]]]) {
+      out.push([`slot-x:${fname}:${fn}`, () => slot(fn === 'static' ? undefined : 'n', [['v', Y]], { attrs: [f(fv)] })])
+      // (alone: nothing else on the element asks for an initialiser)
+      out.push([`slot-x:${fname}:${fn}:alone`, () => slot(undefined, [], { attrs: [f(fv)] })])
+    }
   }
   return out
 }
@@ -155,6 +159,14 @@ function controlKinds() {
     ['for+if', (b) => [el('v', [], [...b, text(E(id('item')))], { wxFor: { list: LIST }, wxIf: E(id('item')) })]],
     ['for+if:block', (b) => [block([...b, text(E(id('index')))], { wxFor: { list: LIST }, wxIf: E(id('index')) })]],
     ['for:spread-list', (b) => [el('v', [], [...b, text(E(M.mem(id('item'), 'v')), E(id('index')))], { wxFor: { list: E(M.arr([{ spread: id('list') }, M.obj([{ key: 'v', value: id('x') }])])) } })]],
+    ['for:slot-own-attributes', (b) => [el('c', [], [slot(E(id('item')), [['v', E(id('index'))]], { attrs: [A.mark('m', E(id('item'))), A.dataColon('i', E(id('index'))), A.id(['s', E(id('index'))]), A.event('bind', 'tap', E(id('item'))), A.dataHyphen('j', E(M.arr([id('item'), id('index')])))] }), ...b], { wxFor: { list: LIST } })]],
+    ['block-slot+if', (b) => [el('c', [], [block(b, { slot: 's1', wxIf: C0 }), block([text('E')], { slot: X, wxElse: true })])]],
+    ['block-slot+elif', (b) => [el('c', [], [block([text('I')], { wxIf: D0 }), block(b, { slot: 's2', wxElif: C0 })])]],
+    ['block-slot+for', (b) => [el('c', [], [block([...b, text(E(id('item')))], { slot: E(id('item')), wxFor: { list: LIST } })])]],
+    ['block-slot+for-static', (b) => [el('c', [], [block(b, { slot: 's3', wxFor: { list: LIST } })])]],
+    ['for:object', (b) => [el('v', [], [...b, text(E(id('index')), ':', E(M.mem(id('item'), 'v')))], { wxFor: { list: E(id('obj')) } })]],
+    ['for:object-keyed', (b) => [el('v', [], [...b, text(E(id('index')), ':', E(M.mem(id('item'), 'v')))], { wxFor: { list: E(id('obj')), key: 'id' } })]],
+    ['for:object-keyed-this', (b) => [block([...b, text(E(id('index')), '=', E(M.mem(id('item'), 'id')))], { wxFor: { list: E(id('obj')), key: '*this' } })]],
     ['for:literal-list', (b) => [el('v', [], [...b, text(E(id('item')))], { wxFor: { list: E(M.arr([id('x'), id('y')])) } })]],
     ['for:number-literal', (b) => [el('v', [], [...b, text(E(id('index')))], { wxFor: { list: E(M.lit('3')) } })]],
     ['for:static-string', (b) => [el('v', [], [...b, text(E(id('item')))], { wxFor: { list: 'ab' } })]],
@@ -164,6 +176,7 @@ function controlKinds() {
     ['template:def+is', (b) => [tdef('t', [...b, text(E(id('x')))]), tis('t', M.obj([{ key: 'x', value: id('y') }]))]],
     ['template:is-no-data', (b) => [tdef('t', [...b, text(E(id('x')))]), tis('t')]],
     ['template:is-shorthand', (b) => [tdef('t', [...b, text(E(id('x')), E(id('y')))]), tis('t', M.obj([{ short: 'x' }, { short: 'y' }]))]],
+    ['template:is-two-spreads', (b) => [tdef('t', [...b, text(E(id('b')), E(M.mem(id('a'), 'v')))]), tis('t', M.obj([{ spread: id('obj') }, { spread: id('a') }]))]],
     ['template:is-spread', (b) => [tdef('t', [...b, text(E(id('b')))]), tis('t', M.obj([{ spread: id('a') }]))]],
     ['template:is-dynamic', (b) => [tdef('t', [...b, text('T')]), tdef('u', [text('U')]), tis(E(id('n')))]],
     ['template:is-missing', (b) => [tdef('t', b), tis('zz')]],
@@ -233,6 +246,8 @@ function exprForms() {
     ['cond-member', M.mem(M.grp(M.cond(c, a, id('b'))), 'b')],
     ['cond-of-cond', M.cond(M.grp(M.cond(c, x, y)), y, x)],
     ['nullish-operand', M.bin('+', M.grp(M.bin('??', x, y)), M.lit("'s'"))],
+    ['object-two-spreads', M.mem(M.obj([{ spread: id('obj') }, { spread: a }]), 'a')],
+    ['object-three-spreads', M.mem(M.obj([{ spread: a }, { spread: id('obj') }, { spread: M.obj([{ key: 'k', value: x }]) }]), 'b')],
     ['array-spread', M.mem(M.arr([{ spread: id('list') }, x]), 'length')],
     ['array-spread-index', M.idx(M.arr([{ spread: M.arr([x]) }, { spread: id('list') }, y]), M.lit('1'))],
     ['array-after-spread', M.idx(M.arr([{ spread: M.arr([M.lit('1')]) }, M.mem(a, 'b')]), M.lit('1'))],
@@ -357,6 +372,7 @@ const VALUES = {
   d2: [1, 0],
   list: [undefined, [], [1, 2], ['', 0], { k: 1, m: 2 }, 'ab', 2, null, [{ id: 1, v: 'p' }, { id: 2, v: 'q' }], [[1, 2], 'xy']],
   a: [undefined, { b: 'B' }, null],
+  obj: [undefined, {}, { a: { id: 1, v: 'p' }, b: { id: 2, v: 'q' } }, { b: { id: 2, v: 'q' }, a: { id: 1, v: 'p' } }, { k: 1 }],
   n: ['t', 'u', undefined, '', 'b'],
   b: [undefined, 'BB'],
 }
